@@ -594,8 +594,24 @@ func checkRouter(r *rtRun) {
 			e.Violate("C14", "client-unable-to-send", "after the whole history a further Send failed: %s", s.Err)
 		}
 	}
-	// liveness bound: once the busy indications stopped, pending Sends finish within a bound
-	// (covered by the settle phase: it is far longer than senders*P + 50ms*busy)
+	// liveness bound: once the busy indications have stopped, every Send still pending returns
+	// within (number of pending Sends) pauses + 50 ms per outstanding busy indication
+	if n := len(busyRx); n > 0 && !r.closed || n > 0 && r.closed && r.closeInv.Seq > r.settled.Seq {
+		lastBusy := busyRx[n-1].b.At
+		pending := 0
+		for _, s := range r.sends {
+			if s.Inv.Seq < lastBusy.Seq && (!s.Done || s.Ret.Seq > lastBusy.Seq) {
+				pending++
+			}
+		}
+		bound := time.Duration(pending+1)*(c.P+eps) + time.Duration(n)*(50*time.Millisecond+eps) + eps
+		for _, s := range r.sends {
+			if s.Inv.Seq < lastBusy.Seq && s.Done && s.Ret.Seq > lastBusy.Seq && s.Ret.T-lastBusy.T > bound {
+				e.Violate("C13", "resume-too-late", "Send id=%d, pending when the last routing-busy indication was read at %v, returned %v later; bound %v (%d pending Sends, pause %v, %d busy indications)", s.ID, lastBusy.T, s.Ret.T-lastBusy.T, bound, pending, c.P, n)
+				break
+			}
+		}
+	}
 
 	checkC14(r, txs, rx, byID)
 }
